@@ -177,6 +177,34 @@ void hx_gen(Rng &r, const std::string &tier)
         else
             emit("ld " + tohex(e->dumps()), "ld-real-dump");
     }
+    // several non-real numbers in one object graph (temporaries handed to the archive)
+    int nc = th ? 600 : 90;
+    for (int i = 0; i < nc; i++) {
+        RCP<const Basic> e;
+        unsigned kind = i % 3, shape = (unsigned)(i / 3);
+        try {
+            e = g.multi_complex(kind, shape);
+            e->dumps();
+        } catch (const std::exception &) {
+            continue;
+        }
+        std::string d = vsexp::dump(e);
+        const char *tag = kind == 0 ? "multi-complex-rational" : kind == 1 ? "multi-complex-double" : "multi-complex-mixed";
+        unsigned k = r.below(4);
+        if (k == 0)
+            emit("rt share " + d, tag);
+        else if (k < 3)
+            emit("rt plain " + d, tag);
+        else
+            emit("ld " + tohex(e->dumps()), tag);
+    }
+    for (int i = 0; i < (th ? 60 : 12); i++) {
+        unsigned rr = 1 + r.below(3), cc = 1 + r.below(3);
+        std::string line = std::to_string(rr) + " " + std::to_string(cc);
+        for (unsigned k = 0; k < rr * cc; k++)
+            line += " " + vsexp::dump(g.nonreal(i % 3));
+        emit("mrt " + line, "multi-complex-matrix");
+    }
     // matrices
     int nm = th ? 300 : 40;
     for (int i = 0; i < nm; i++) {
@@ -199,4 +227,4 @@ void hx_gen(Rng &r, const std::string &tier)
             emit("mld " + tohex(DenseMatrix(rr, cc, v).dumps()), "matrix-ld");
     }
 }
-// (c19_gen.h revision 4: guarded generator, ASLR off)
+// (c19_gen.h revision 5: multi-complex family)
